@@ -132,15 +132,16 @@ Theorem C19_month_spellings_unfold :
              (combine (month_res lang) (seq 0 12))).
 Proof. split; [reflexivity|]. split; reflexivity. Qed.
 
-(* rules: tr has thirteen of the twenty rules of en (rules_only_en lists the other seven); a shared rule has the same
+(* rules: tr has fourteen of the twenty rules of en (rules_only_en lists the other six, all of which need a conversion
+   word; the word-free time_with_timezone is shared since the /repo data fix); a shared rule has the same
    patterns up to keyword words and the order of its patterns; to_duration places its keyword differently
    (`A to B` / `A B arası`); small_date of tr has three of the five spellings; as_duration cannot fire in tr *)
 Theorem C19_tables_parallel_rules :
   shared_rules = ["as_duration"; "combine_durations"; "convert_money"; "division_cleanup"; "duration_parse";
                   "find_numbers_percent"; "find_total_from_percent"; "number_of"; "number_off"; "number_on";
-                  "percent_calculator"; "to_duration"; "small_date"]%string /\
+                  "percent_calculator"; "time_with_timezone"; "to_duration"; "small_date"]%string /\
   rules_only_en = ["at_date"; "convert_timezone"; "dynamic_type_convert"; "from_unixtime"; "number_type_convert";
-                   "time_with_timezone"; "to_unixtime"]%string /\
+                   "to_unixtime"]%string /\
   rule_names L_tr = map s shared_rules /\
   (forall n, In n (rule_names L_en) <-> In n (map s shared_rules) \/ In n (map s rules_only_en)) /\
   (forall n, In n (map s rules_only_en) -> ~ In n (rule_names L_tr)) /\
